@@ -21,12 +21,17 @@ IsAlnum(c) == IsAlpha(c) \/ IsDigit(c) \/ c > 127
 \* (U+00DF sharp s and U+00FF have no one-to-one partner in the table and stay outside the identifier domain.)
 IsUpperX(c) == c \in 192..222 /\ c # 215
 IsLowerX(c) == c \in 224..254 /\ c # 247
-UIsUpper(c) == IsUpper(c) \/ IsUpperX(c)
-UIsLower(c) == IsLower(c) \/ IsLowerX(c)
-ULo(c) == IF UIsUpper(c) THEN c + 32 ELSE c
-UUp(c) == IF UIsLower(c) THEN c - 32 ELSE c
+\* ... and a few letters outside Latin-1 whose mappings are still one code point to one code point but have a property the
+\* Latin-1 pairs lack: U+023A / U+023E (2 bytes in UTF-8) <-> U+2C65 / U+2C66 (3 bytes): the byte length changes with the case;
+\* U+03F4 (capital theta symbol) -> U+03B8 -> U+0398: lower-casing and upper-casing again does not lead back.
+UIsUpper(c) == IsUpper(c) \/ IsUpperX(c) \/ c \in {570, 574, 1012, 920}
+UIsLower(c) == IsLower(c) \/ IsLowerX(c) \/ c \in {11365, 11366, 952}
+ULo(c) == IF IsUpper(c) \/ IsUpperX(c) THEN c + 32
+          ELSE IF c = 570 THEN 11365 ELSE IF c = 574 THEN 11366 ELSE IF c \in {1012, 920} THEN 952 ELSE c
+UUp(c) == IF IsLower(c) \/ IsLowerX(c) THEN c - 32
+          ELSE IF c = 11365 THEN 570 ELSE IF c = 11366 THEN 574 ELSE IF c = 952 THEN 920 ELSE c
 \* identifiers of the case-conversion domain: ASCII letters, digits, underscore and the letters of the table
-InCaseTable(c) == IsAlpha(c) \/ IsDigit(c) \/ c = 95 \/ IsUpperX(c) \/ IsLowerX(c)
+InCaseTable(c) == IsAlpha(c) \/ IsDigit(c) \/ c = 95 \/ UIsUpper(c) \/ UIsLower(c)
 
 Lo(c) == IF IsUpper(c) THEN c + 32 ELSE c
 Up(c) == IF IsLower(c) THEN c - 32 ELSE c
